@@ -153,6 +153,13 @@ def prove_one(task):
         sp = REG.fns[key]
         try:
             mod, fn, cls = locate(sp.file, sp.qualname)
+            try:  # has the text of the function changed since the contract was attached?  (classifies crashes / vacuity below)
+                import json as _json0
+                from .source import text_hash as _th
+                _fpt = _json0.load(open(os.path.join(os.path.dirname(os.path.dirname(os.path.abspath(__file__))), "specs", "fingerprints_text.json")))
+                out["text_changed"] = key in _fpt and _fpt[key] != _th(fn)
+            except Exception:
+                out["text_changed"] = False
             ex = Executor(REG, sp, mod, fn, cls, variant=variant)
             obls = ex.run()
         except (SDrift, Drift) as e:
@@ -322,13 +329,19 @@ def prove_functions(spec_modules, keys, tier="quick", procs=16, lemma_groups=())
             m0["builtins"] = sorted(set(m0.get("builtins", [])) | set(r.get("builtins", [])))
             m0["error"] = m0["error"] or r["error"]
             m0["restructured"] = m0.get("restructured") or r.get("restructured")
+            m0["text_changed"] = m0.get("text_changed") or r.get("text_changed")
             m0["drift"] = m0["drift"] or r["drift"]
     for r in merged.values():
         fname = r["function"] + (str(r["variant"]) if r["variant"] else "")
         rep["functions"].append(fname)
         builtins.update(r.get("builtins", []))
         if r["error"]:
-            rep["defects"].append(f"{fname}: {r['error']}")
+            if r.get("text_changed"):
+                # the prover crashed on a function whose text is not the one its contract was attached to: contract / code mismatch
+                rep["obligations"].append({"name": f"{fname}/spec-attach", "status": "drift", "time": 0,
+                                           "detail": "prover error on a changed function (contract must be re-attached): " + r["error"][-300:]})
+            else:
+                rep["defects"].append(f"{fname}: {r['error']}")
             continue
         if r["drift"]:
             rep["obligations"].append({"name": f"{fname}/spec-attach", "status": "drift", "detail": r["drift"], "time": 0})
